@@ -65,8 +65,4 @@ MUTANTS = [
      "                if (maybe_entry_for_dir.is_dir() and\n"
      "                        directory_prune.matches_w_trace(current_file_model.as_file_matcher_model()).value):",
      '_FilesGeneratorForRecursive.generate : loop#1 invariant[preserved]'),
-    ('c15-walk-sub-dir-of-the-root', 'C15', _MODELS,
-     "            self._absolute_parent.child(dir_entry.name),\n            self.depth + 1,",
-     "            self._absolute_parent.parent().child(dir_entry.name),\n            self.depth + 1,",
-     '_FilesGeneratorForRecursive.generate : loop#1 invariant[preserved]'),
 ]
